@@ -465,6 +465,25 @@ func c01FaultCases() []c01Case {
 					cs.MustFail = true
 					cs.MustName = append(cs.MustName, f.Base)
 				}
+			case "dangling":
+				// a symbolic link whose target does not exist: the file is missing
+				cs.Load.Files = append(cs.Load.Files, memFile{Name: f.Name, Link: "nowhere/gone"})
+				what = append(what, "dangling:"+f.Name)
+				if f.Required {
+					cs.MustFail = true
+					cs.MustName = append(cs.MustName, f.Base)
+				}
+			case "linked":
+				// reached through a symbolic link: present
+				cs.Load.Files = append(cs.Load.Files, memFile{Name: "real/" + f.Name, Content: f.Content}, memFile{Name: f.Name, Link: strings.Repeat("../", strings.Count(f.Name, "/")) + "real/" + f.Name})
+				what = append(what, "linked:"+f.Name)
+			case "empty":
+				// zero bytes: an env or label file without entries; a compose file without content (either outcome)
+				cs.Load.Files = append(cs.Load.Files, memFile{Name: f.Name, Content: ""})
+				what = append(what, "empty:"+f.Name)
+				if strings.HasSuffix(f.Name, ".yaml") {
+					optionalDir = true
+				}
 			}
 		}
 		sort.Strings(what)
@@ -491,7 +510,12 @@ func c01FaultCases() []c01Case {
 		out = append(out, mk(absent))
 	}
 	for i := 0; i < n; i++ {
-		out = append(out, mk(map[int]string{i: "dir"}))
+		out = append(out, mk(map[int]string{i: "dir"}), mk(map[int]string{i: "dangling"}), mk(map[int]string{i: "linked"}), mk(map[int]string{i: "empty"}))
+		for j := 0; j < n; j++ {
+			if j != i {
+				out = append(out, mk(map[int]string{i: "dangling", j: "absent"}), mk(map[int]string{i: "linked", j: "dangling"}))
+			}
+		}
 	}
 	return out
 }
